@@ -411,7 +411,18 @@ func checkGraphMutationSites(c *Ctx, r *Report, clause string) {
 		n++
 		sites = append(sites, w.pos(cl.Pos()))
 		for _, h := range hostParts(fnShort(cl.Parent())) {
-			if _, ok := doc.Pairs[h+" -> "+name]; !ok {
+			_, ok := doc.Pairs[h+" -> "+name]
+			if !ok {
+				// a reviewed helper that made this call and was inlined into h brought its pair with it
+				if hfi := w.Funcs[h]; hfi != nil {
+					for _, g := range w.vanishedFns() {
+						if _, tabled := doc.Pairs[g+" -> "+name]; tabled && w.absorbedInto(g, hfi) {
+							ok = true
+						}
+					}
+				}
+			}
+			if !ok {
 				viol = fmt.Sprintf("%s: %s now calls %s: a new place from which the symbol graph is changed (tables/graphmutations.json). Inserting from a path that also runs when the entity is served from the cache makes a second pass add nodes and edges the first pass did not, and removal from a new place can drop what another pass still needs", w.pos(cl.Pos()), h, name)
 			}
 		}
